@@ -79,6 +79,26 @@ NOTES = {
  "C17-r6m4/": "first missed (the token field has the same extrema on every rank); minima and maxima are now judged on a ramp field",
  "C18-r6m3/": "first missed (no constants file with an explicit CN0); added",
  "C20-r6m3/": "first missed (too few set-up samples near the limits); C20 now includes process counts at the limit of what the grid sizes allow",
+ "C01-r7m5/": "first missed (no route of four steps inside one handler); C01 now has deterministic chain-of-five and ring-of-six layout sets",
+ "C02-r7m3/": "first missed (no swapper whose less distributed handler has two layouts of its own); the configuration of the repository's own swapper test (four groups) was added",
+ "C03-r7m4/": "first missed (no even-step move inside a group with a buffer); found with the four-group configuration",
+ "C04-r7m5/": "first missed (grids on a layout swapper only made one- and two-step changes); grids now change layout along three-step routes on a swapper with two 2-D groups",
+ "C06-r7m3/": "first missed (no restart scenario from a folder without a saved grid, and a reduction whose root lies outside the communicator was not judged); both added",
+ "C07-r7m1/": "first missed (the 2-D point-wise kernels were reached through Spline2D only, with equal degrees in the pairs drawn); the kernels are now called directly on mixed-degree pairs",
+ "C07-r7m2/": "first missed (zero-filled output arrays); outputs now hold stale values",
+ "C08-r7m4/": "first missed (the 2-D interpolant was not evaluated through eval_vector); added with a stale caller-provided array",
+ "C09-r7m2/": "first missed (the equal-weights clause was skipped when the interpolation points were not evenly spaced - a precondition that excused the slip itself); now judged on every uniform periodic space, only 15-decimal rounding on a tiny domain is excused",
+ "C11-r7m2/": "first missed (every operator was built with an explicit boundary mode); an operator built without it must behave as fEq, which the driver relies on",
+ "C11-r7m4/": "first missed (the grid-level oracle took its gradient from an operator built on the same distributed layout); the reference gradient now comes from an undistributed operator addressed by the global radius",
+ "C12-r7m2/": "first missed (every operator was built with an explicit tolerance); the implicit step with the default tolerance must terminate (subprocess with a time limit)",
+ "C14-r7m2/": "a slip in QuasiNeutralitySolver (kinetic-electron right-hand-side factor, B != 1): what C15 states; C15 first missed it too (B = 1 only) and now uses B = 1.7",
+ "C14-r7m4/": "first missed (linearity was tested with real factors; the manufactured right-hand sides had real modes); complex linearity solve(i rho) = i solve(rho) added",
+ "C14-r7m5/": "a slip in QuasiNeutralitySolver.solveEquation (mode-0 matrix reused, chi = 1): what C15 states; detected by C15 with B = 1.7",
+ "C16-r7m5/": "first missed (the driver's construction of its DensityFinder was not observed); the wrapper of the driver run records the spline it is built on",
+ "C17-r7m5/": "first missed (the reduced quantities were judged, not the printed line); the line rank 0 writes must show the reduced quantities (C17Trace clause)",
+ "C18-r7m1/": "first missed (a loaded field was compared in the layout it was loaded in); it must survive a layout change and back",
+ "C18-r7m3/": "first missed (setupSave only into folders it creates itself); existing empty and re-used folders added",
+ "C18-r7m4/": "first missed (symbolic constants were only evaluated over default-valued operands); sources with non-default operands are evaluated independently",
 }
 rows = []
 for d in sorted(glob.glob("/verif/seeded/*/meta.json")):
